@@ -19,10 +19,14 @@ def run_workers(jobs, parallel, jobs_each):
         out = work / ("res%03d.json" % i)
         env = dict(os.environ)
         env["VERIF_JOBS"] = str(jobs_each)
-        p = subprocess.run([sys.executable, str(VERIF / "py" / "c03worker.py"), argv[0], str(out)] + [str(a) for a in argv[1:]],
-                           capture_output=True, text=True, env=env, timeout=7000)
+        env["PYTHONFAULTHANDLER"] = "1"
+        for attempt in (1, 2):     # a worker that dies without a result is run once more; twice in a row is reported with its arguments
+            p = subprocess.run([sys.executable, str(VERIF / "py" / "c03worker.py"), argv[0], str(out)] + [str(a) for a in argv[1:]],
+                               capture_output=True, text=True, env=env, timeout=7000)
+            if out.exists():
+                break
         if not out.exists():
-            return argv, {"violations": [], "inconclusive": ["worker produced no result rc=%s: %s" % (p.returncode, p.stderr[-800:])],
+            return argv, {"violations": [], "inconclusive": ["worker %r produced no result twice, rc=%s: %s" % (argv, p.returncode, p.stderr[-1500:])],
                           "stats": {}, "info": {"kind": argv[0]}}
         return argv, json.loads(out.read_text())
     with cf.ThreadPoolExecutor(max_workers=parallel) as ex:
@@ -52,6 +56,7 @@ def run(tier):
     samples = []
     programs = 0
     rejected = 0
+    unsure = 0
     contract_evals = 0
     disagreements = 0
     for argv, r in res:
@@ -62,6 +67,8 @@ def run(tier):
             v.inconclusive_because("%s: %s" % (argv[0], inc))
         if r["info"].get("rejected_by_zic"):
             rejected += 1
+        if r["info"].get("oracle_unsure"):
+            unsure += 1
         for k, n in r["stats"].items():
             if isinstance(n, (int, float)):
                 stats[k] = stats.get(k, 0) + n if not k.endswith("max_high_water") else max(stats.get(k, 0), n)
@@ -74,6 +81,8 @@ def run(tier):
         for s in r["stats"].get("samples", [])[:1]:
             if len(samples) < 8:
                 samples.append(s)
+    if (rejected + unsure) * 4 > max(nmut, 1):
+        v.inconclusive_because("%d of %d mutants were discarded (zic rejected %d, oracle readers disagreed on %d)" % (rejected + unsure, nmut, rejected, unsure))
     if contract_evals == 0:
         v.inconclusive_because("conservation contracts were never evaluated")
     if stats.get("py.probes", 0) < 100000 or stats.get("ar.sweep.probes", 0) < 1000000 or programs < 4:
@@ -103,6 +112,7 @@ def run(tier):
         "counters": {k: n for k, n in stats.items()},
         "contract_evaluations": contract_evals,
         "mutants_rejected_by_zic": rejected,
+        "mutants_discarded_oracle_readers_disagree": unsure,
     })
     v.assumptions += ["zones whose notable_* entry documents a truncation are excluded from the semantic comparison (counted)",
                       "mutation operators are the harness's; 'any source' is sampled, not enumerated"]
